@@ -166,9 +166,77 @@ pub fn gen(rng: &mut Rng) -> ConcCase {
             }
         }
     }
+    else if m >= 2 && rng.chance(1, 2) {
+        // near twins: muxer j is muxer i with one small difference (the first frame in another framing or
+        // with one bit flipped, one configuration field changed). Anything remembered across instances
+        // under too coarse a key (a parse cache, a header template) shows as muxer j's output differing
+        // from what the same script produces alone.
+        let i = rng.usize(m);
+        let mut j = rng.usize(m);
+        if j == i {
+            j = (i + 1) % m;
+        }
+        let mut b = scripts[i].clone();
+        near_twin(rng, &mut b);
+        scripts[j] = b;
+        ctime_now[j] = ctime_now[i];
+    }
     let entropy = (0..threads).map(|_| rng.next_u64()).collect();
     let clock0 = *rng.pick(&[0i64, 1, 951782400, 1700000000, 4102444800, 253402300799, 32503680000]);
     ConcCase { scripts, threads, clock0, entropy, sched_seed: rng.next_u64(), decisions: Vec::new(), ctime_now, pair: None }
+}
+
+/// One small change to a script (see `gen`); whether the changed script is still accepted is irrelevant,
+/// its reference is what it does alone.
+fn near_twin(rng: &mut Rng, c: &mut ProgCase) {
+    let first_video = c.ops.iter().position(|o| matches!(o, Op::Video { .. } | Op::VideoDts { .. } | Op::EncVideo { .. }));
+    let how = rng.below(8);
+    match (how, first_video) {
+        (0..=2, Some(k)) if c.cfg.video.as_ref().map(|v| v.codec == VCodec::Av1).unwrap_or(false) => {
+            let d = c.ops[k].data_mut().unwrap();
+            if let Some(r) = crate::frames::av1_reframe(&d.0, how as u8) {
+                d.0 = r;
+            }
+        }
+        (0..=4, Some(k)) => {
+            // one bit somewhere in the first frame (parameter sets, headers, start codes, payload)
+            let d = c.ops[k].data_mut().unwrap();
+            if !d.0.is_empty() {
+                let at = rng.usize(d.0.len().min(96));
+                d.0[at] ^= 1 << rng.below(8);
+            }
+        }
+        (5, Some(k)) => {
+            // the last byte of the first frame dropped / one appended
+            let d = c.ops[k].data_mut().unwrap();
+            if rng.bool() && d.0.len() > 1 {
+                d.0.pop();
+            } else {
+                d.0.push(rng.below(256) as u8);
+            }
+        }
+        _ => {
+            // one configuration field
+            match rng.below(4) {
+                0 => {
+                    if let Some(v) = c.cfg.video.as_mut() {
+                        v.width = v.width.wrapping_add(2).max(2);
+                    }
+                }
+                1 => {
+                    if let Some(v) = c.cfg.video.as_mut() {
+                        v.height = v.height.wrapping_add(2).max(2);
+                    }
+                }
+                2 => {
+                    if let Some(a) = c.cfg.audio.as_mut() {
+                        a.channels = if a.channels == 1 { 2 } else { 1 };
+                    }
+                }
+                _ => c.cfg.fast_start = Some(!c.cfg.fast_start_effective()),
+            }
+        }
+    }
 }
 
 // ---------------------------------------------------------------- muxers behind one interface
